@@ -10,6 +10,11 @@ sys.path.insert(0, HERE)
 CHECKS = {}   # filled by vf/props modules that exist: id -> (category, text, note, technique, design_ref)
 
 TABLE = {
+    "C07": ("exploration",
+            "Every get_instruction result is observed for instructions rendered from (a) random entry patterns of synthetic models (all operand kinds, wildcards, duplicates, shadowing, multi-name entries) incl. near misses and suffix fall-backs through the real ArchSemantics.assign_tp_lt, and (b) each entry of all 17 shipped models and both ISA databases (every entry in thorough), all parsed by the real parser; a three-valued reference matcher on plain YAML/AST descriptors decides soundness, completeness and first-match order.",
+            "Trusted: vf/ref_match.py (the MUST / MUST-NOT / DON'T-CARE table of DESIGN.md section 2), the renderers of vf/gen_lookup.py; lookups whose text the real parser did not recover as rendered are skipped and counted (parser properties C09/C10).",
+            "runtime monitoring: observed lookups vs three-valued reference matcher; per-entry synthesis over all shipped entries",
+            "C07"),
     "C01": ("exploration",
             "Wrappers on the real ArchSemantics.add_semantics / assign_optimal_throughput snapshot every instruction's micro-ops and pressure under uniform, one-pass and two-pass (CLI) scheduling on synthetic port models, on streams rendered from every shipped model's own forms and on the shipped corpus through the real CLI; each snapshot is judged by an independent Hall-condition feasibility oracle and the totals by recomputed column sums. Exploration is the honest level: the input space (models x kernels) is unbounded.",
             "Trusted: vf/ref_sched.py (feasibility = non-negativity, support, total, Hall clause over unions of micro-op port sets), the tolerance 0.01 x sum|P_i| for optimised splits; shipped-model micro-ops are taken from the observed port_uops after checking they are an entry's data.",
